@@ -115,6 +115,16 @@ func buildDeb(vec J) (builtDeb, error) {
 				switch f["kind"].(string) {
 				case "control":
 					content := renderControl(L(s["fields"]))
+					// the control member's "text" says how the file ends / begins: n = no final newline, b = blank lines
+					// after the paragraph, l = a blank line before it (all the same paragraph to a deb822 reader)
+					switch S(s["text"]) {
+					case "n":
+						content = bytes.TrimSuffix(content, []byte("\n"))
+					case "b":
+						content = append(content, '\n', '\n')
+					case "l":
+						content = append([]byte("\n"), content...)
+					}
 					if raw, ok := s["control_raw"]; ok {
 						content = []byte(S(raw)) // hostile control-file text
 					}
@@ -622,7 +632,8 @@ func genDebRaw(r *rand.Rand, tier string, out *Writer) {
 		}
 		n := len(base.Bytes)
 		out.Put(J{"k": "debraw", "ctl": comps[0], "data": comps[1], "op": "none"})
-		for _, nm := range []string{"control.sig", "data.sig", "control.tar", "data.tar.gz", "_gpgorigin", "control.", "data.x.tar"} {
+		for _, nm := range []string{"control.sig", "data.sig", "control.tar", "data.tar.gz", "_gpgorigin", "control.", "data.x.tar",
+			"control-old.tar", "data-old.tar", "controlx.tar.gz", "datax.tar.gz", "control", "data", "Control.tar", "xcontrol.tar"} {
 			out.Put(J{"k": "debraw", "ctl": comps[0], "data": comps[1], "op": "extra_member", "name": nm})
 		}
 		for _, t := range []string{"", "\n", "Package\n", ": x\n", "-----BEGIN PGP SIGNED MESSAGE-----\n", "-----BEGIN PGP SIGNED MESSAGE-----\nHash: SHA256\n\nPackage: a\nVersion: 1\n",
